@@ -143,6 +143,9 @@ func Unpack(dst, src []byte) ([]byte, error) {
 			src = src[1:]
 			n := copy(dst[start:], src)
 			src = src[n:]
+			if n < len(dst)-start {
+				return dst, io.ErrUnexpectedEOF
+			}
 		}
 	}
 	return dst, nil
@@ -222,6 +225,9 @@ func (r *Reader) ReadWord(p []byte) error {
 	case r.literal > 0:
 		r.literal--
 		_, err := io.ReadFull(r.rd, p)
+		if err == io.EOF {
+			err = io.ErrUnexpectedEOF
+		}
 		return err
 	}
 
